@@ -645,3 +645,5 @@ M('allowlist-D34-shape-scalar', ['C16'], CF, "                names = config.get
 M('seed6-C06-repeat-not-counted', ['C06', 'C04'], Z, "            clients[full_id] = ZMQSender.Client(client_id, pull, t, True, ephemeral, prev_id)", "            known            = clients.get(full_id)\n            clients[full_id] = ZMQSender.Client(client_id, pull, t, known is None or known.requested or prev_id != known.prev_id, ephemeral, prev_id)", ['C06.R9', 'C04.R1'])
 M('seed6-C14-guard-compares-raw-float', ['C14', 'C13'], RL, "if (logfiles := self.logfiles) and int(ts * 1_000_000) <= (last_us := round(logfiles[-1].timestamp * 1_000_000)):  # a repeated or backwards timestamp would reuse (and truncate) an existing file name or break the sort order, so name the new file one microsecond after the newest one\n            ts = (last_us + 1.5) / 1_000_000", "if (logfiles := self.logfiles) and ts <= (last_ts := logfiles[-1].timestamp):\n            ts = (round(last_ts * 1_000_000) + 1.5) / 1_000_000", ['C14.R9', 'C13.R1'])
 M('seed6-C02-fortran-buffer', ['C02', 'C09'], MQ, "img  = frame.jpg if do_jpg else bytearray(memoryview(frame.image))", "img  = frame.jpg if do_jpg else mv if (mv := memoryview(frame.image)).contiguous else bytearray(mv)", ['C02.R11', 'C09.R8'])
+
+M('close-D37-shape-permission-survives', ['C03', 'C06'], Z, "                            do_send = False  # was decided while this client was still there (it may be a required output, or the only one of a balanced output), the next request decides again\n\n", "", ['C03.R6', 'C06.R10'])
